@@ -847,6 +847,21 @@ func main() {
 			fmt.Fprintln(os.Stderr, err)
 			os.Exit(2)
 		}
+		var sc struct {
+			Input struct {
+				Scenario string `json:"scenario"`
+				Flood    int    `json:"flood"`
+			} `json:"input"`
+		}
+		if json.Unmarshal(b, &sc) == nil && sc.Input.Scenario == "dead-downstream-flood" {
+			d := runDeadDownstream(sc.Input.Flood)
+			w.Add(coqfmt.Case{Term: "mkIsoCase []", Input: sc.Input, Kind: "dead-downstream-flood", Direct: d, Nontrivial: true})
+			if err := w.Flush(*seed, *tier, "replay of the dead-downstream flood scenario", false, nil); err != nil {
+				fmt.Fprintln(os.Stderr, err)
+				os.Exit(2)
+			}
+			return
+		}
 		jobs = append(jobs, job{&rf.Input, "replay", rf.CaseSeed})
 	} else {
 		nrand := 60
